@@ -105,6 +105,10 @@ TARGETS = [
       'extern': {'_field_to_iso8583': ([('bit_config', 'cfg'), ('field_value', ('opt', 'anyval')), ('encoding', 'codec')],
                                        'bytes', True)},
       'lean_name': '_dict_to_iso8583_loop'}),
+    # the typed conversion on ENCODE: a value of any type in (str, int, Decimal, datetime, bytes), the text (or the value
+    # itself) out; `_get_date_from_string` (dateutil or the fallback parser) is a parameter
+    ('cardutil/iso8583.py', '_pytype_to_string', {'field_data': 'anyval', 'bit_config': 'cfg'}, 'anyval',
+     {'extern': {'_get_date_from_string': ([('field_data', 'anyval')], 'dt', True)}}),
     # the column slicing of the parameter reader (read-only method: expanded flag, decoder, table index, layouts are parameters)
     ('cardutil/mciipm.py', 'IpmParamReader._get_param_field', {'record': 'bytes', 'field': 'str'}, 'str', {'readonly': True}),
     # FRAGMENTS of functions whose other statements call the cipher library: the decimalisation at the end of
@@ -272,6 +276,8 @@ class Translator:
             return code
         if want == 'pyval' and typ in ('str', 'int', 'dec', 'dt'):
             return f'(Rt.PyVal.{typ} {code})'
+        if want == 'anyval' and typ in ('str', 'int', 'dec', 'dt', 'bytes'):
+            return f'(Rt.AnyVal.{typ} {code})'
         if want == 'infoval' and typ in ('str', 'bool'):
             return f'(Rt.InfoVal.{typ} {code})'
         if want == 'str' and typ == 'none':
@@ -616,6 +622,9 @@ class Translator:
     def cfg_field(self, code, key, default=None):
         if isinstance(key, ast.Constant) and key.value in self.CFG_FIELDS and default is None:
             return f'({code}).{key.value}', self.CFG_FIELDS[key.value]
+        if isinstance(key, ast.Constant) and key.value == 'field_length' and isinstance(default, ast.Constant) \
+                and default.value == 0 and not isinstance(default.value, bool):
+            return f'({code}).field_length', 'int'     # the key is part of every configuration entry of the rendering
         if isinstance(key, ast.Constant) and key.value in self.CFG_OPTIONAL and isinstance(default, ast.Constant) \
                 and isinstance(default.value, str):
             d = lean_lit_seq(ord(c) for c in default.value)
@@ -651,6 +660,8 @@ class Translator:
                 return self.hoist(f'(Rt.decimalOfStr Gen.intClasses {c})', 'dec')
             if t == 'int':
                 return f'(Py.decOfInt {c})', 'dec'
+            if t == 'anyval':
+                return self.hoist(f'(Rt.anyDecimal Gen.intClasses {c})', 'dec')
             raise Untranslatable(f'Decimal() of {t}')
         if isinstance(f, ast.Attribute) and f.attr == 'strptime' and isinstance(f.value, ast.Attribute) \
                 and f.value.attr == 'datetime' and len(node.args) == 2 and not node.keywords:
@@ -763,6 +774,8 @@ class Translator:
                     return self.hoist(f'(Rt.intOfStr Gen.intClasses {c})', 'int')
                 if t == 'int':
                     return c, 'int'
+                if t == 'anyval':
+                    return self.hoist(f'(Rt.anyInt Gen.intClasses {c})', 'int')
                 raise Untranslatable(f'int() of {t}')
             if name == 'int' and len(args) == 2 and self.const_int(args[1]) == 16:
                 c, t = self.expr(args[0], env)
@@ -779,6 +792,34 @@ class Translator:
                 if t not in ('bytes', 'asciibytes'):
                     raise Untranslatable('array("B", x) of a non-bytes value')
                 return c, 'bytes'       # an array of unsigned bytes: the same sequence
+            if name == 'format' and len(args) == 2 and isinstance(args[1], ast.BinOp) and isinstance(args[1].op, ast.Add) \
+                    and isinstance(args[1].right, ast.Constant) and args[1].right.value in ('d', 'f') \
+                    and isinstance(args[1].left, ast.BinOp) and isinstance(args[1].left.op, ast.Add) \
+                    and isinstance(args[1].left.left, ast.Constant) and args[1].left.left.value == '0' \
+                    and isinstance(args[1].left.right, ast.Call) and isinstance(args[1].left.right.func, ast.Name) \
+                    and args[1].left.right.func.id == 'str' and len(args[1].left.right.args) == 1:
+                # format(n, '0' + str(w) + 'd'): zero-filled integer of width w (sign included);
+                # format(d, '0' + str(w or '') + 'f'): zero-filled positional Decimal, no width when w is 0 / None
+                c, t = self.expr(args[0], env)
+                warg = args[1].left.right.args[0]
+                kind = args[1].right.value
+                if kind == 'f' and isinstance(warg, ast.BoolOp) and isinstance(warg.op, ast.Or) and len(warg.values) == 2 \
+                        and isinstance(warg.values[1], ast.Constant) and warg.values[1].value == '':
+                    w, wt = self.expr(warg.values[0], env)
+                    if wt != 'int' or t != 'dec':
+                        raise Untranslatable('decimal format with unexpected types')
+                    return self.hoist(f'(Rt.fmtDecSpec {w} {c})', 'str')
+                w, wt = self.expr(warg, env)
+                if kind == 'd' and wt == 'int' and t == 'int':
+                    return self.hoist(f'(Rt.fmtIntSpec {w} {c})', 'str')
+                raise Untranslatable('format with a computed specification')
+            if name == 'format' and len(args) == 2:
+                c0, t0 = self.expr(args[0], env)
+                if t0 == 'dt':
+                    fc, ft = self.expr(args[1], env)
+                    if ft != 'str':
+                        raise Untranslatable('date format that is not a text')
+                    return self.hoist(f'(Rt.formatDt {c0} {fc})', 'str')
             if name == 'format' and len(args) == 2 and isinstance(args[1], ast.BinOp) and isinstance(args[1].op, ast.Add) \
                     and isinstance(args[1].left, ast.Constant) and args[1].left.value in ('0', '<') \
                     and isinstance(args[1].right, ast.Call) and isinstance(args[1].right.func, ast.Name) \
@@ -1320,6 +1361,29 @@ class Translator:
             then = self.stmts(s.body if self.terminates(s.body) else s.body + rest, envb, ret, loop)
             other = self.stmts(s.orelse + rest if not self.terminates(s.orelse) else s.orelse, envs, ret, loop)
             return f'match {env[x][0]} with\n  | Rt.SB.bytes {x} =>\n    ({then})\n  | Rt.SB.str {x} =>\n    ({other})'
+        if isinstance(s, ast.If) and not s.orelse and isinstance(s.test, ast.UnaryOp) and isinstance(s.test.op, ast.Not) \
+                and isinstance(s.test.operand, ast.Call) and isinstance(s.test.operand.func, ast.Name) \
+                and s.test.operand.func.id == 'isinstance' and len(s.test.operand.args) == 2 \
+                and isinstance(s.test.operand.args[0], ast.Name) \
+                and env.get(s.test.operand.args[0].id, (None, None))[1] == 'anyval' \
+                and isinstance(s.test.operand.args[1], ast.Attribute) and s.test.operand.args[1].attr == 'datetime' \
+                and len(s.body) == 1 and isinstance(s.body[0], ast.Assign) and len(s.body[0].targets) == 1 \
+                and isinstance(s.body[0].targets[0], ast.Name) and s.body[0].targets[0].id == s.test.operand.args[0].id:
+            # if not isinstance(x, datetime.datetime): x = f(x)   — afterwards x is a datetime on both paths
+            x = s.test.operand.args[0].id
+
+            envd = dict(env)
+            envd[x] = (x, 'dt')
+            saved, self.pending = self.pending, []
+            c, t = self.expr(s.body[0].value, env)
+            binds, self.pending = self.pending, saved
+            if t != 'dt':
+                raise Untranslatable('conversion that does not give a datetime')
+            after = self.stmts(rest, envd, ret, loop)
+            other = f'let {x} : Py.DateTime := {c};\n  {after}'
+            for v, cc in reversed(binds):
+                other = f'Outcome.bind {cc} (fun {v} =>\n    {other})'
+            return f'match {env[x][0]} with\n  | Rt.AnyVal.dt {x} =>\n    ({after})\n  | _ =>\n    ({other})'
         if isinstance(s, ast.If) and isinstance(s.test, ast.Compare) and len(s.test.ops) == 1 \
                 and isinstance(s.test.ops[0], (ast.Eq, ast.NotEq)) and isinstance(s.test.left, ast.Constant) \
                 and isinstance(s.test.comparators[0], ast.Constant):
